@@ -163,6 +163,8 @@ Definition safe_to_resend (o : outcome) : bool :=
     input kind 0: direct policy call  (0 method code received blockFor dataPresent writeType retryCount)
        method: 0 OnReadTimeout 1 OnWriteTimeout 2 OnUnavailable 3 OnErrorResponse
        output: decision number
+    input kind 3: (3 n) n sends on one backend connection closed while its reader is busy; output (k): k requests
+       whose Send failed were later notified through OnClose
     input kind 1: scripted request   (1 idem (plan...) (down...) (outcome...))
        outcome: (0) result | (1 code received blockFor dataPresent writeType) error | (2 p) unprepared | (3) lost
        output: ((host...) reply)   hosts that received the request, in order;
@@ -200,6 +202,7 @@ Definition reply_val (t : list tried) (r : option reply) : val :=
 Definition run_c05 (input : val) : val :=
   let kind := vZ (nthv 0 input) in
   if kind =? 2 then L [nthv 1 input]   (* n idempotent requests in flight when a host's connections drop: n replies *)
+  else if kind =? 3 then L [I 0]       (* n sends on a connection closed under a busy reader: no failed send is notified later *)
   else if kind =? 0 then
     let meth := vZ (nthv 1 input) in
     let m := mk_err (vZ (nthv 2 input)) (vZ (nthv 3 input)) (vZ (nthv 4 input)) (vbool (nthv 5 input)) (vB (nthv 6 input)) in
@@ -229,6 +232,9 @@ Definition doc_c05 (input : val) : val :=
 Definition holds_c05 (input output : val) : val :=
   let kind := vZ (nthv 0 input) in
   if kind =? 2 then (if val_eqb output (L [nthv 1 input]) then B [] else B (str "requests-left-unanswered"))
+  else if kind =? 3 then
+    (if val_eqb output (L [I 0]) then B []
+     else B (str "request-whose-send-failed-stayed-registered-and-was-notified-of-the-close-after-moving-on-to-the-next-host"))
   else if kind =? 0 then
     let meth := vZ (nthv 1 input) in
     let m := mk_err (vZ (nthv 2 input)) (vZ (nthv 3 input)) (vZ (nthv 4 input)) (vbool (nthv 5 input)) (vB (nthv 6 input)) in
